@@ -1193,6 +1193,94 @@ func (m *c16Mon) deletePhase(tr *c16Transport, written []*Tup) {
 	}
 }
 
+// mixedTransactPhase (T7): ONE request that deletes and inserts relationships
+// which share names the server has never seen (an idempotent "move": delete the
+// old grant if it exists, insert the new one). The delete is a no-op; the
+// inserted relationships must read back with their strings.
+func (m *c16Mon) mixedTransactPhase(tr *c16Transport, written []*Tup) {
+	run := m.run
+	r := run.p.rng(m.idx, "mixed")
+	base := written[r.IntN(len(written))]
+	if len(base.Object)+len(c16SubjectName(base)) > 256<<10 {
+		// the request would exceed the transports' message limits (a transport
+		// setting, not a naming matter)
+		run.count("mixed_request_skipped_names_too_long_for_one_message", 1)
+		return
+	}
+	ns := base.Namespace
+	n1, n2, n3 := base.Object+"~moved", c16SubjectName(base)+"~mover", base.Object+"~other"
+	gone := tupID(ns, n1, "viewer", n2)
+	ins := []*Tup{tupID(ns, n1, "editor", n2), tupSet(ns, n3, "editor", ns, n1, "viewer"), tupID(ns, n3, "viewer", n1)}
+	for _, t := range append([]*Tup{gone}, ins...) {
+		if !tupTransportable(t) {
+			return
+		}
+	}
+	via := "rest"
+	if r.IntN(2) == 0 {
+		deltas := []*ketoapi.PatchDelta{{Action: ketoapi.ActionDelete, RelationTuple: gone}}
+		for _, t := range ins {
+			deltas = append(deltas, &ketoapi.PatchDelta{Action: ketoapi.ActionInsert, RelationTuple: t})
+		}
+		if r.IntN(2) == 0 { // inserts first
+			deltas = append(deltas[1:], deltas[0])
+		}
+		st, body, pt := serveHTTP(tr.ctx, tr.write, "PATCH", "/admin/relation-tuples", jsonStr(deltas))
+		if pt != "" || st != 204 {
+			m.violate("mixed", fmt.Sprintf("C16:mixed-patch:status-%d", st), fmt.Sprintf("PATCH with one delete and %d inserts on new names: status %d %s %s", len(ins), st, trunc(body, 200), trunc(pt, 200)), nil)
+			return
+		}
+	} else {
+		via = "grpc"
+		var ds []*rts.RelationTupleDelta
+		ds = append(ds, &rts.RelationTupleDelta{Action: rts.RelationTupleDelta_ACTION_DELETE, RelationTuple: gone.ToProto()})
+		for _, t := range ins {
+			ds = append(ds, &rts.RelationTupleDelta{Action: rts.RelationTupleDelta_ACTION_INSERT, RelationTuple: t.ToProto()})
+		}
+		ctx, cancel := context.WithTimeout(tr.ctx, 60*time.Second)
+		_, err := tr.g.Write.TransactRelationTuples(ctx, &rts.TransactRelationTuplesRequest{RelationTupleDeltas: ds})
+		cancel()
+		if err != nil {
+			m.violate("mixed", "C16:mixed-transact:error:"+status.Code(err).String(), "gRPC Transact with one delete and inserts on new names: "+trunc(err.Error(), 300), nil)
+			return
+		}
+	}
+	run.count("mixed_insert_delete_requests_on_new_names", 1)
+	for k, lv := range []string{"rest", "grpc"} {
+		var got []*Tup
+		var e string
+		q := &ketoapi.RelationQuery{Namespace: sp(ns), Relation: sp("editor")}
+		if k == 0 {
+			got, e = tr.listREST(q.ToURLQuery(), 100)
+		} else {
+			got, e = tr.listGRPC(q, 100)
+		}
+		var want []*Tup
+		for _, t := range ins {
+			if t.Relation == "editor" {
+				want = append(want, t)
+			}
+		}
+		for _, w := range written {
+			if matchesQuery(w, q) {
+				want = append(want, w)
+			}
+		}
+		run.eval(1)
+		if e != "" {
+			m.violate("mixed", "C16:list-"+lv+":after-mixed-request:error", lv+" list failed: "+e, nil)
+		} else if cls, det := multisetDiff(want, got); cls != "" {
+			m.violate("mixed", "C16:list-"+lv+":after-mixed-request:"+cls, fmt.Sprintf("after one %s request that deletes %s (not stored) and inserts %d relationships sharing its never-seen names, %s list differs from what was written: %s %v", via, descTup(gone), len(ins), lv, cls, det), det)
+		}
+	}
+	// leave the store as it was found
+	var deltas []*ketoapi.PatchDelta
+	for _, t := range ins {
+		deltas = append(deltas, &ketoapi.PatchDelta{Action: ketoapi.ActionDelete, RelationTuple: t})
+	}
+	_, _, _ = serveHTTP(tr.ctx, tr.write, "PATCH", "/admin/relation-tuples", jsonStr(deltas))
+}
+
 func tupTransportable(t *Tup) bool {
 	ok := utf8.ValidString(t.Namespace) && utf8.ValidString(t.Object) && utf8.ValidString(t.Relation)
 	if t.SubjectID != nil {
@@ -1249,6 +1337,7 @@ func TestC16(t *testing.T) {
 					m.transportPhase(tr, written)
 					if !m.fail {
 						m.concurrentReadPhase(tr, written)
+						m.mixedTransactPhase(tr, written)
 						m.deletePhase(tr, written)
 					}
 					cancelReqs()
